@@ -639,7 +639,9 @@ func (r *c03Ref) ty(node ast.Node) c03RT {
 			r.viol("condition", n.Cond)
 		}
 		a, b := r.ty(n.Exp1), r.ty(n.Exp2)
-		if a.c == b.c && (a.c != rKnown || a.t == b.t) && a.c != rNil {
+		// two arrays whose element types the documentation does not fix (results of filter / map) are not known to
+		// have ONE static type: the conditional is dynamic (demanding more would go beyond the documented rules)
+		if a.c == b.c && (a.c != rKnown || a.t == b.t) && a.c != rNil && a.c != rArrAny {
 			return a
 		}
 		return unknown
